@@ -278,7 +278,7 @@ def CallSt.analyzeRequest (c : CallSt) : CallSt × Except Fault Unit :=
       | .ok () => ({ c with req := req2, writer := info.bodyMode, analyzed := true }, .ok ())
 
 def requestLine (r : AReq) : Bytes :=
-  strBytes (r.method.text ++ " " ++ r.effUri.pathAndQuery ++ " " ++ r.version.text ++ "\r\n")
+  strBytes r.method.text ++ (32 :: (strBytes r.effUri.pathAndQuery ++ (32 :: (strBytes r.version.text ++ crlf))))
 
 def headerLine (h : Hdr) (last : Bool) : Bytes :=
   strBytes (h.name ++ ": ") ++ h.value ++ crlf ++ (if last then crlf else [])
